@@ -8,6 +8,7 @@ real threads under ``vcheck.impl.scheduler`` and through the extracted model LTS
 schedules with a bounded number of pre-emptions, produced by stateless search on the real code.
 O: judged from the implementation's journal only."""
 import json
+import sys
 
 from .. import core
 
@@ -67,13 +68,16 @@ class C20(core.Check):
         self.plugins, self.wspbus = plugins, wspbus
         self.S = S = Scheduler(step_timeout=10.0, exec_timeout=60.0)
         BT, MON, TMc = plugins.BackgroundTask, plugins.Monitor, plugins.ThreadManager
-        S.instrument(BT.run.__code__, labeler('run', rw=('running',)))
-        S.instrument(BT.cancel.__code__, labeler('cancel', rw=('running',)))
+        self.mon_codes = [(BT.run.__code__, labeler('run', rw=('running',))),
+                          (BT.cancel.__code__, labeler('cancel', rw=('running',))),
+                          (MON.start.__code__, labeler('start', w=('thread',))),
+                          (MON.stop.__code__, labeler('stop', w=('thread',), ret=True)),
+                          (MON.graceful.__code__, labeler('graceful', w=('thread',)))]
         if 'start' in BT.__dict__:
-            S.instrument(BT.__dict__['start'].__code__, labeler('tstart', rw=('running',)))
-        S.instrument(MON.start.__code__, labeler('start', w=('thread',)))
-        S.instrument(MON.stop.__code__, labeler('stop', w=('thread',), ret=True))
-        S.instrument(MON.graceful.__code__, labeler('graceful', w=('thread',)))
+            self.mon_codes.append((BT.__dict__['start'].__code__, labeler('tstart', rw=('running',))))
+        self.cancel_code = BT.cancel.__code__
+        self.opcode_mode = None
+        self.granularity(False)
         S.instrument(TMc.acquire_thread.__code__, labeler('acq', rw=('threads',)))
         S.instrument(TMc.release_thread.__code__, labeler('rel', rw=('threads',)))
         S.instrument(TMc.stop.__code__, labeler('tmstop', rw=('threads',), ops=('FOR_ITER',)))
@@ -94,6 +98,7 @@ class C20(core.Check):
         self.Task = Task
         self.cache = {}
         self.n_exec = 0
+        self.main_sigs = set()
 
     def teardown(self):
         S = getattr(self, 'S', None)
@@ -137,7 +142,11 @@ class C20(core.Check):
 
             def on_step(tid, label):
                 if label == 'cancel/STORE_ATTR:running':
-                    ctx['target'] = tid_of(mon.thread)
+                    # the task whose cancel() is executing (found on the stack, not through mon.thread)
+                    f = sys._getframe()
+                    while f is not None and f.f_code is not self.cancel_code:
+                        f = f.f_back
+                    ctx['target'] = tid_of(f.f_locals.get('self')) if f is not None else -1
                     ctx['cancelled'].add(ctx['target'])
                 elif label == 'stop/RET':
                     emit(1, -1 if ctx['target'] is None else ctx['target'], S.now())
@@ -254,10 +263,19 @@ class C20(core.Check):
     def key(c):
         return json.dumps(c, sort_keys=True)
 
+    def granularity(self, opcode):
+        """False: the visible instructions are the scheduling points (what the model has);
+        True: every instruction of the anchored Monitor/BackgroundTask functions is one"""
+        if opcode != self.opcode_mode:
+            self.opcode_mode = opcode
+            for code, lab in self.mon_codes:
+                self.S.instrument(code, lab, every=opcode, replace=True)
+
     def impl(self, c):
         k = self.key(c)
         if k in self.cache:
             return self.cache.pop(k)
+        self.granularity(bool(c.get('opcode')))
         setup, obsf, kw = self.scenario(c)
         r = self.S.execute(setup, c['sched'], **kw)
         self.n_exec += 1
@@ -273,13 +291,11 @@ class C20(core.Check):
         two = [['start', 'stop', 'start'], ['start', 'graceful'], ['start', 'graceful', 'stop'],
                ['start', 'stop', 'start', 'stop'], ['graceful', 'graceful']]
         for p in one:
+            out.append((p, True, 3 if q else 4))
+            out.append((p, False, 3 if q else 4))
+        for p in two:
             out.append((p, True, 2 if q else 3))
             out.append((p, False, 2 if q else 3))
-        for p in two:
-            out.append((p, True, 1 if q else 2))
-            out.append((p, False, 1 if q else 2))
-        if q:
-            out.append((['start', 'stop', 'start'], True, 2))
         return out
 
     def tm_scenarios(self):
@@ -307,9 +323,11 @@ class C20(core.Check):
             n = self.enumerate(base, bound, cap, out)
             self.count('tm %s stops=%d k<=%d%s' % ('|'.join(''.join(p) for p in progs), nstops, bound,
                                                    '' if n < cap else ' (capped)'), n)
+        self.all_cases = out
         return out
 
     def enumerate(self, base, bound, cap, out):
+        self.granularity(bool(base.get('opcode')))
         setup, obsf, kw = self.scenario(dict(base, sched=[]))
         n = 0
         for r in self.S.explore(setup, bound, limit=cap, **kw):
@@ -422,6 +440,8 @@ class C20(core.Check):
             if f[0] not in seen:
                 seen.add(f[0])
                 out.append(f)
+                if not c.get('opcode'):
+                    self.main_sigs.add(f[0])
         return out
 
     def nontrivial(self, c, obs):
@@ -438,8 +458,42 @@ class C20(core.Check):
     # ------------------------------------------------------------------ extra: determinism + opcode level
     def extra(self):
         out = []
-        # deterministic replay: a sample of the enumerated schedules is executed again from scratch
-        return out
+        S = self.S
+        # 1. deterministic replay: a sample of the enumerated schedules is executed again, twice
+        pool = getattr(self, 'all_cases', [])
+        bad = None
+        for c in self.rng.sample(pool, min(40 if self.tier == 'quick' else 400, len(pool))):
+            a, b = self.impl(c), self.impl(c)
+            self.count('replayed twice (determinism)')
+            if a != b or a['trace'] == [] or len(a['trace']) < len(c['sched']):
+                bad = (c, a, b)
+        if bad:
+            out.append(core.Violation('scheduler-nondeterministic', 'the same schedule gave two different executions',
+                                      case=bad[0], observed=bad[1], expected=bad[2], kind='correspondence',
+                                      no_input=True, broken=['deterministic-replay']))
+        # 2. opcode granularity (oracle only): every instruction of BackgroundTask.run/cancel/start and
+        #    Monitor.start/stop/graceful is a pre-emption point
+        q = self.tier == 'quick'
+        found = {}
+        for prog, daemon, bound, cap in ((['start', 'stop'], True, 1 if q else 2, 1500 if q else 40000),
+                                         (['start', 'stop', 'start'], True, 1, 1500 if q else 20000),
+                                         (['start', 'graceful'], False, 1, 800 if q else 10000)):
+            base = {'sys': 'mon', 'prog': prog, 'daemon': daemon, 'budget': 2, 'interval': INTERVAL, 'opcode': True}
+            self.granularity(True)
+            setup, obsf, kw = self.scenario(dict(base, sched=[]))
+            n = 0
+            for r in S.explore(setup, bound, limit=cap, **kw):
+                c = dict(base, sched=list(r.schedule))
+                obs = obsf(c, r)
+                n += 1
+                for sig, what in self.oracle(c, obs):
+                    if sig not in self.main_sigs and sig not in found:
+                        found[sig] = core.Violation(sig, what + ' (opcode-level schedule)', case=c, observed=obs,
+                                                    kind='oracle')
+            self.count('opcode-level %s k<=%d%s (oracle only)' % ('/'.join(prog), bound,
+                                                                 '' if n < cap else ' (capped)'), n)
+        self.granularity(False)
+        return out + list(found.values())
 
 
 CHECK = C20
